@@ -60,6 +60,7 @@ type world struct {
 	nMust    int
 	nExpired int
 	nAtTick  int
+	big      bool
 }
 
 // wait draws how long the calling task sleeps before its next operation.
@@ -158,6 +159,9 @@ func (w *world) lookup(who string) {
 	tp, s := w.tp, w.s
 	h := tp.Draw(len(w.hashes))
 	n := len(w.ids) + 1 - tp.Draw(len(w.ids)+3) // mostly >= group size, down to -1
+	if w.big && tp.Chance(800) {
+		n = 3 + tp.Draw(len(w.ids)/2-2)
+	}
 	gt0, gs0 := s.Now(), s.NextSeq()
 	res, err := w.store.GetPeers(w.hashes[h], n)
 	gt1, gs1 := s.Now(), s.NextSeq()
@@ -274,6 +278,14 @@ func body(s *simrt.Sim, tier string) {
 	// hourly group cleanup so that the whole group has lapsed when it runs
 	// (some entries not yet collected by the 5-minute pass), and announces and
 	// looks up again at that very instant.
+	// Workload variant "big group" (out of band): 8-40 peers and lookups asking
+	// for 3 .. half of them, so that sampling (not "return everybody") is what
+	// GetPeers does.
+	w.big = s.Tape.Variant%3 == 1 && (s.Tape.Variant/3)%2 == 1
+	if w.big {
+		nPeers = 8 + int(s.Tape.Variant/6%33)
+		s.Probe("big_group_variant")
+	}
 	lapse := s.Tape.Variant%3 == 2
 	if lapse {
 		w.ttl = []time.Duration{20 * time.Second, 90 * time.Second, 4 * time.Minute}[int(s.Tape.Variant/3%3)]
